@@ -486,6 +486,16 @@ func (g *Gen) hitEvent() map[string]interface{} {
 	return ev
 }
 
+// EventFor makes an event that matches the given when pattern (nil when that cannot be done
+// within what the profile allows in events).
+func (g *Gen) EventFor(pattern map[string]interface{}) map[string]interface{} {
+	ev, ok := g.instantiate(pattern, map[string]interface{}{}).(map[string]interface{})
+	if !ok || (!g.P.MixedEvents && !homogeneousArrays(ev)) {
+		return nil
+	}
+	return ev
+}
+
 func (g *Gen) ixEvent() map[string]interface{} {
 	var ev map[string]interface{}
 	if len(g.known) > 0 && g.R.Intn(5) > 0 {
@@ -653,7 +663,7 @@ func (g *Gen) Next() Op {
 		g.Homogeneous = !g.P.MixedEvents
 		op.Val = g.Fact()
 		g.Homogeneous = false
-		if !g.P.Dispatch && !g.P.Index && g.R.Intn(2) == 0 {
+		if !g.P.Dispatch && !g.P.Index && (g.R.Intn(2) == 0 || (g.P.Name == "guardacts" && g.R.Intn(3) > 0)) {
 			if ev := g.hitEvent(); ev != nil {
 				op.Val = ev
 			}
